@@ -176,7 +176,7 @@ TraceBlockMsg ==
           ELSE UNCHANGED << lk, hist >>
   /\ UNCHANGED << now, height, comet >>
 
-Ups(e) == { <<e.ups[i][1], e.ups[i][2]>> : i \in DOMAIN e.ups }
+Ups(e) == IF "ups" \in DOMAIN e THEN { <<e.ups[i][1], e.ups[i][2]>> : i \in DOMAIN e.ups } ELSE { <<e.vals[i][1], e.vals[i][2]>> : i \in DOMAIN e.vals }
 
 TraceEnd ==
   /\ IsEvent("end")
@@ -193,14 +193,28 @@ TraceEnd ==
      /\ comet' = [v \in Vals |-> Ev.comet[v]]
   /\ UNCHANGED << now, height, hist >>
 
-TNext == TraceInitEv \/ TraceBegin \/ TraceBlockMsg \/ TraceEnd
+(* export ; InitChain on a fresh application: every collection, the rebuilt indices included, equals what Reimport computes *)
+TraceReimport ==
+  /\ IsEvent("reimport")
+  /\ LET C == StateFrom(Ev.st)
+         R == Reimport(lk)
+     IN
+     /\ Chk(Matches(R, C) /\ R.ranking = C.ranking /\ R.lockIdx = C.lockIdx /\ R.valSet = C.valSet /\ R.thr = C.thr, "REIMPORT-MISMATCH", Diff(R, C))
+     /\ Chk(Ups(Ev) \ {<<0, 0>>} = { <<v, C.valSet[v]>> : v \in { x \in Vals : C.valSet[x] # Absent } }, "INIT-VALIDATORS", Ev.vals)
+     /\ Ev.st.unknown = 0 /\ Ev.st.big = 0
+     /\ lk' = C
+     /\ comet' = [v \in Vals |-> Ev.comet[v]]
+     /\ height' = Ev.h
+  /\ UNCHANGED << now, hist >>
+
+TNext == TraceInitEv \/ TraceBegin \/ TraceBlockMsg \/ TraceEnd \/ TraceReimport
 
 Reached == PrintT(<<"TRACE_REACHED", TLCGet("stats").diameter - 1, Len(Trace)>>)
 
 (***************************************************************************)
 (* Property predicates, evaluated in every observed state.                  *)
 (***************************************************************************)
-AtBoundary == l > 1 /\ Trace[l - 1].ev \in {"end", "init"}
+AtBoundary == l > 1 /\ Trace[l - 1].ev \in {"end", "init", "reimport"}
 
 \* C11: locked = held + slashed + released, nothing negative
 FundsConserved ==
